@@ -41,6 +41,7 @@ fn main() {
             "timecreate" => run::timecreate(&fields[1..]),
             "print" => run::print(&fields[1..]),
             "printmc" => run::printmc(&fields[1..]),
+            "mcinstr" => run::mcinstr(&fields[1..]),
             "runs" => run::runs(&fields[1..]),
             "dumpir" => run::dumpir(&fields[1..]),
             "dumpbc" => run::dumpbc(&fields[1..]),
